@@ -24,6 +24,8 @@ Definition pairs (wa wb : Z) : list (Z * Z) :=
   flat_map (fun a => map (fun b => (a, b)) (seqZ 0 (2 ^ wb))) (seqZ 0 (2 ^ wa)).
 Definition rows_exh (wa wb : Z) (impl : list Z) : list (Z * Z * Z) :=
   map (fun '((a, b), r) => (a, b, r)) (combine (pairs wa wb) impl).
+Definition rows_of (ops : list (Z * Z)) (impl : list Z) : list (Z * Z * Z) :=
+  map (fun '((a, b), r) => (a, b, r)) (combine ops impl).
 (* rows (a, b, impl): those where the model differs from impl, or the spec makes a claim (Some) that differs from impl *)
 Definition bad (model : Z -> Z -> Z) (spec : Z -> Z -> option Z) (rows : list (Z * Z * Z)) : list (Z * Z * Z * Z * Z) :=
   firstn 3 (flat_map (fun '(a, b, r) =>
@@ -235,8 +237,8 @@ class Sweep:
         """returns None when the Coq side could not be evaluated (model does not build), else number of model/spec mismatches"""
         ctx = self.ctx
         if not self.tables: return 0
-        items, batch, size, k = [], [], 0, 0
-        files = []
+        batch, size, k = [], 0, 0
+        files, extra, opsdef = [], [], {}         # per file: items, extra prelude (operand lists shared by the tables of one format)
         for t in self.tables:
             block, fmts, exh, ops, out = t
             model, spec = coq_fun(block, fmts)
@@ -244,19 +246,30 @@ class Sweep:
                 wa = width(fmts[0]); wb = width(fmts[1]) if block == 'mul' else wa
                 rows = 'rows_exh %d %d [%s]' % (wa, wb, ';'.join(zlit(r) for r in out))
             else:
-                rows = '[%s]' % ';'.join('(%s,%s,%s)' % (zlit(a), zlit(b), zlit(r)) for (a, b), r in zip(ops, out))
+                key = tuple(ops)
+                if key not in opsdef:
+                    opsdef[key] = 'ops_%d' % len(opsdef)
+                    extra.append('Definition %s : list (Z * Z) := [%s].' % (opsdef[key], ';'.join('(%s,%s)' % (zlit(a), zlit(b)) for a, b in ops)))
+                rows = 'rows_of %s [%s]' % (opsdef[key], ';'.join(zlit(r) for r in out))
             batch.append(('t%d' % k, 'bad (%s) (%s) (%s)' % (model, spec, rows), t)); k += 1
             size += len(out)
-            if size > 30000:
-                files.append(batch); batch, size = [], 0
-        if batch: files.append(batch)
+            if size > 25000:
+                files.append((batch, '\n'.join(extra))); batch, size, extra, opsdef = [], 0, [], {}
+        if batch: files.append((batch, '\n'.join(extra)))
         self.tables = []
         nbad = 0
-        for i, batch in enumerate(files):
+        from concurrent.futures import ThreadPoolExecutor
+        def ev(ib):
+            i, (batch, extra) = ib
             try:
-                res = common.coq_eval('%s_%d' % (tag, i), PRELUDE, [(n, term) for n, term, _ in batch], timeout=900)
+                return common.coq_eval('%s_%d' % (tag, i), PRELUDE + extra + '\n', [(n, term) for n, term, _ in batch], timeout=900)
             except RuntimeError as ex:
-                ctx.notes['coq_side_unavailable'] = str(ex)[-1500:]
+                return ex
+        with ThreadPoolExecutor(max_workers=4) as pool:       # independent case files: evaluate them side by side
+            results = list(pool.map(ev, enumerate(files)))
+        for (batch, _), res in zip(files, results):
+            if isinstance(res, RuntimeError):
+                ctx.notes['coq_side_unavailable'] = str(res)[-1500:]
                 return None
             for n, _, (block, fmts, exh, ops, out) in batch:
                 for row in res[n]:
@@ -276,7 +289,7 @@ class Sweep:
                     else:
                         rec['what'] = 'Coq spec (Spec/C14.v) and the real block disagree (the Python oracle does not: the two statements of the property differ)'
                         ctx.violation(rec, found_input=True)
-        ctx.notes['coq_rows'] = ctx.notes.get('coq_rows', 0) + sum(len(t[4]) for b in files for _, _, t in b)
+        ctx.notes['coq_rows'] = ctx.notes.get('coq_rows', 0) + sum(len(t[4]) for b, _ in files for _, _, t in b)
         return nbad
 
 
@@ -323,21 +336,21 @@ def sweep(ctx, sw, rng):
     sw.table('signx', ((2, 1, 1),), rows=[(9, 0)])
     sw.table('signx', ((0, 2, 2),), rows=[(9, 0)])
     # 3. multiplier with mixed a/b/r formats.  Through Coq: all triples of width <= 3 and a random sample of wider ones;
-    #    oracle only: ALL triples of width <= 5 (quick) / <= 6 (thorough), every operand pair
+    #    oracle only: ALL triples of width <= 5 (quick) / <= 7 (thorough), every operand pair
     for trip in itertools.product(formats_upto(3), repeat=3):
         sw.table('mul', trip)
-    for trip in rng.sample(list(itertools.product(small, repeat=3)), 40 if quick else 400):
+    for trip in rng.sample(list(itertools.product(small, repeat=3)), 40 if quick else 1200):
         sw.table('mul', trip)
     if sw.failed: return st, st2
     ctx.log('small tables driven: %d rows' % sw.n_rows)
     st = sw.flush('C14_small')
     ctx.log('small tables evaluated in Coq: %s mismatches' % st)
-    for trip in itertools.product(formats_upto(5 if quick else 6), repeat=3):
+    for trip in itertools.product(formats_upto(5 if quick else 7), repeat=3):
         sw.table('mul', trip, to_coq=False)
         if sw.failed: return st, st2
     ctx.log('mixed-format multiplier tables driven (rational oracle): %d rows so far' % sw.n_rows)
     # 4. wide formats: boundary x boundary + random operands, up to 64 bits
-    nbig = 12 if quick else 80
+    nbig = 12 if quick else 160
     for k in range(nbig):
         F = rand_format(rng, 7, 64) if k else (1, 31, 32)
         rows = big_rows(rng, width(F), width(F), 14)
@@ -380,7 +393,7 @@ def run(ctx):
     ctx.cov['exhaustive'] = False
     ctx.notes['exhaustive_part'] = ('all operand pairs for all 15 formats (1,i,f) of width <= 5: add, sub, sign, comparator, same-format mult, helper add/sub/mult '
                                     '(impl vs Coq model vs Coq spec vs rational oracle); all operand pairs for all mixed multiplier format triples of width <= %d '
-                                    '(impl vs rational oracle)' % (5 if ctx.quick else 6))
+                                    '(impl vs rational oracle)' % (5 if ctx.quick else 7))
     ctx.notes['tables'] = len(sw.seen_tables)
     ctx.notes['rows_total'] = sw.n_rows
 
